@@ -470,6 +470,15 @@ Definition proc_out (g : gstate) (i : nat) (o : obs nat) : bool :=
             rng.shuffle(sched)
             cases.append({"threads": nthreads, "payloads": payloads, "schedule": sched, "initial": rng.choice([None, None, None, "old"]),
                           "deia": rng.random() < 0.2})
+        if tier != "quick":
+            # exhaustively all interleavings of two loaders at step-boundary granularity (6 releases each: C(12,6) = 924)
+            import itertools
+            for pos in itertools.combinations(range(12), 6):
+                sched = [1] * 12
+                for p_ in pos:
+                    sched[p_] = 0
+                cases.append({"threads": 2, "payloads": ["good", "good"], "schedule": sched, "initial": None, "deia": False})
+            self.exhaustive_space = "all 924 interleavings of two loaders at step-boundary granularity"
         return cases
 
     def run(self, c):
